@@ -301,7 +301,13 @@ def main(fd, verbose=0):
                     if verbose:
                         util.debug(f"[ResourceTracker] unlink {name}")
                 except Exception as e:
-                    warnings.warn(f"resource_tracker: {name}: {e!r}")
+                    # The warning itself can raise when warnings are turned
+                    # into errors (-W error): it must not abort the cleanup
+                    # of the remaining resources.
+                    try:
+                        warnings.warn(f"resource_tracker: {name}: {e!r}")
+                    except Exception:
+                        pass
 
         for rtype, rtype_registry in registry.items():
             if rtype == "folder":
